@@ -20,6 +20,12 @@ WIDE = "あ中\U0001f600Ａ"
 ZERO = "́​\x00\x07\x1b"
 WS = " \t\n   \x1c\x85"
 ALPHA = ASCII + WIDE + ZERO + WS + CTL
+# regex metacharacters: every separator / word / suffix / character set the code hands to `re` must be
+# treated literally (re.escape); a dropped escape only shows when these occur in the argument AND the text
+META = ".|$^+*?()[]{}\\"
+META_SEPS = [".", "|", "$", "^", "+", "*", "?", "(", ")", "[", "]", "{", "}", "\\", "a.", ".b", "a|b", "b$a", "a+",
+             "(a)", "[ab]", "\\n", "a*", ".*", "^a", "b$", "{1}", "\\d", "a?", "..", "||", "a|", "|a", "$$", "(", "a\\"]
+TAIL = [""]        # what the history last put at the end of the text (for remove_suffix / rstrip_end hits)
 
 JUSTIFY = [None, "left", "center", "right", "full", "default"]
 OVERFLOW = [None, "fold", "crop", "ellipsis", "ignore"]
@@ -29,7 +35,8 @@ NOWRAP = [None, False, True]
 def rstr(rng, maxlen=8, pool=None):
     n = rng.choice([0, 1, 1, 2, 3, 4, 6, maxlen])
     n = min(n, maxlen)
-    pool = pool or rng.choice([ASCII, ASCII, ASCII + WS, ASCII + CTL, ASCII + WIDE, ASCII + ZERO, ALPHA, "a\t\n", "ab"])
+    pool = pool or rng.choice([ASCII, ASCII, ASCII + WS, ASCII + CTL, ASCII + WIDE, ASCII + ZERO, ALPHA, "a\t\n", "ab",
+                               "ab" + META, "ab.|$+", ASCII + META])
     return "".join(rng.choice(pool if rng.random() < 0.8 else ALPHA) for _ in range(n))
 
 
@@ -96,6 +103,9 @@ def rop(rng, est, wild):
                     rng.choice([23, 10, 1, 26])])
     if k == 1:
         s = rstr(rng, 6)
+        if rng.random() < 0.25:     # trailing whitespace runs (rstrip, rstrip_end) and metacharacter tails
+            s += rng.choice([" ", "  ", " \t", "\n", " \x1c", "\u3000 ", "\x85", " \n ", ".", "a.", "$", "+)", "|"])
+        TAIL[0] = clean(s)
         return [1, s2t(s), rstyle(rng)], est + len(clean(s))
     if k in (2, 3):
         a = rarg(rng, wild)
@@ -115,12 +125,22 @@ def rop(rng, est, wild):
                 parts.append([2, rarg(rng, wild)])
         return [5, rng.randint(0, 6), parts], est + 4
     if k == 6:
-        return [6, rarg(rng, wild), [rarg(rng, wild) for _ in range(rng.randint(0, 2))],
+        sep = rarg(rng, wild)
+        if rng.random() < 0.5:
+            # a separator with a base style AND spans setting the same attribute (same parity = same attribute)
+            txt = rng.choice([", ", "|", " . ", "--", "$"])
+            b = rng.randint(1, 6)
+            sep = [s2t(txt), b, [[0, len(txt), ((b + 1) % 6) + 1 if (((b + 1) % 6) + 1) % 2 == b % 2 else ((b + 2) % 6) + 1],
+                                 [0, 1, rng.randint(1, 6)]]]
+        return [6, sep, [rarg(rng, wild) for _ in range(rng.randint(0, 2))],
                 [rarg(rng, wild) for _ in range(rng.randint(0, 2))]], est + 6
     if k == 7:
         return [7, [rarg(rng, wild) for _ in range(rng.randint(0, 3))]], est + 6
     if k == 8:
-        sep = rng.choice(["\n", "\t", " ", "a", "aa", "ab", "\n", "b", "あ", "" if wild else "a"])
+        sep = rng.choice(["\n", "\t", " ", "a", "aa", "ab", "\n", "b", "あ", "" if wild else "a"]
+                         + [rng.choice(META_SEPS) for _ in range(6)]
+                         + [c for c in TAIL[0] if c in META][:3] * 2          # metacharacters known to be in the text
+                         + [TAIL[0][j:j + 2] for j in range(len(TAIL[0]) - 1) if TAIL[0][j] in META or TAIL[0][j + 1] in META][:2])
         return [8, s2t(sep), rng.randint(0, 1), rng.randint(0, 1), rng.choice([0, 0, 1, 1, 2, 3, -1])], max(0, est // 2)
     if k == 9:
         offs = [roff(rng, est) for _ in range(rng.randint(0, 4))]
@@ -155,21 +175,27 @@ def rop(rng, est, wild):
     if k == 20:
         return [20, rng.choice([0, 1, est - 2, est - 1, est, est + 1, -1 if rng.random() < 0.2 else 2])], est
     if k == 21:
-        return [21, rng.choice([[], [], [4], [8], [1], [2], [3], [0] if wild else [4], [-2] if wild else [5]])], est + 3
+        return [21, rng.choice([[], [], [4], [8], [1], [1], [2], [3], [0], [-2] if rng.random() < 0.3 else [5]])], est + 3
     if k in (22, 23):
         return [k], est if k == 22 else 0
     if k == 24:
         s = rstr(rng, 8)
+        TAIL[0] = clean(s)
         return [24, s2t(s)], len(clean(s))
     if k == 25:
-        return [25, s2t(rng.choice(["", "", "a", " ", "b", "ab", "\n", rstr(rng, 3)]))], est
+        tail = TAIL[0]
+        hits = [tail[-j:] for j in (1, 2, 3) if len(tail) >= j] + [tail]
+        return [25, s2t(rng.choice(["", "", "a", " ", "b", "ab", "\n", rstr(rng, 3), ".", "$", "a.", ".*", "a|b", "+", "\\"]
+                                   + hits + hits))], est
     if k == 26:
         return [26, rng.randint(0, 6), ridx(rng, est), ropt(rng, ridx(rng, est))], est
     if k == 27:
-        ws = [rng.choice(["a", "b", "ab", "ba", " ", "あ", "abc", "x"]) for _ in range(rng.randint(1, 3))]
+        ws = [rng.choice(["a", "b", "ab", "ba", " ", "あ", "abc", "x", ".", "a.", "a|b", "$", "+", "(", "[a]", "\\", "a*",
+                          ".*", "|", "b$", "^a", "?"]) for _ in range(rng.randint(1, 3))]
         return [27, [s2t(w) for w in ws], rng.randint(0, 6)], est
     if k == 28:
-        return [28, s2t(rng.choice(["a", "ab", " ", "abc09", "あb"])), rng.randint(1, 6)], est   # a falsy style is "no style" there
+        return [28, s2t(rng.choice(["a", "ab", " ", "abc09", "あb", "a.$", "|+*", "^", "]", "\\", "-a", "^a", "[b", "a-c", "\\b"])),
+                rng.randint(1, 6)], est   # a falsy style is "no style" there
     # copy_styles: "must be the same length" -- in-domain uses come from rhist, which pins the length first
     if wild:
         return [29, rarg(rng, wild)], est
@@ -295,6 +321,34 @@ def rstore(rng, wild=False, maxops=12):
     return [inits, sops[:maxops]]
 
 
+def rmeta_hist(rng):
+    """regex metacharacters that occur LITERALLY in the text, as separator / word / suffix / character set"""
+    pool = "ab" + META
+    txt = "".join(rng.choice(pool if rng.random() < 0.7 else "ab") for _ in range(rng.randint(2, 9)))
+    n = len(txt)
+    init = [s2t(txt), [rng.randint(0, 6), 0, 0, 0, s2t("\n"), [8]], rspans(rng, n)]
+
+    def sub():
+        if rng.random() < 0.25:
+            return rng.choice(META_SEPS)
+        i = rng.randrange(n)
+        return txt[i:i + rng.choice([1, 1, 2, 3])]
+    ops = []
+    for _ in range(rng.randint(1, 4)):
+        c = rng.random()
+        if c < 0.5:
+            ops.append([8, s2t(sub()), rng.randint(0, 1), rng.randint(0, 1), rng.choice([0, 0, 1, 2])])
+        elif c < 0.7:
+            ops.append([27, [s2t(sub()) for _ in range(rng.randint(1, 3))], rng.randint(1, 6)])
+        elif c < 0.8:
+            ops.append([25, s2t(txt[-rng.choice([1, 2, 3]):] if rng.random() < 0.7 else sub())])
+        elif c < 0.9:
+            ops.append([28, s2t(sub()), rng.randint(1, 6)])
+        else:
+            ops.append([1, s2t(sub() + rng.choice(["", " ", "\t"])), rstyle(rng)])
+    return [init, ops]
+
+
 def generate(rng, tier):
     cases = []
     k = 1 if tier == "quick" else 25
@@ -304,6 +358,8 @@ def generate(rng, tier):
         cases.append(("text_hist", rhist(rng, wild=True)))
     for _ in range(600 * k):    # short histories: single operations at the boundaries
         cases.append(("text_hist", rhist(rng, wild=rng.random() < 0.2, maxops=2)))
+    for _ in range(500 * k):
+        cases.append(("text_hist", rmeta_hist(rng)))
     for _ in range(2500 * k):   # several live values: copies / derived values next to their source
         cases.append(("store_hist", rstore(rng, wild=False, maxops=rng.choice([3, 6, 12]))))
     for _ in range(300 * k):
